@@ -25,17 +25,41 @@ fn collect_capped<I: Iterator>(it: I, cap: usize) -> Vec<I::Item> {
     it.take(cap + 1).collect()
 }
 
+/// long sequences are shown by their first divergence only
+fn show<T: std::fmt::Debug + PartialEq>(got: &[T], want: &[T]) -> String {
+    if got.len().max(want.len()) <= 24 {
+        return format!("{:?}, the forest defines {:?}", got, want);
+    }
+    let k = got.iter().zip(want.iter()).position(|(a, b)| a != b).unwrap_or(got.len().min(want.len()));
+    let lo = k.saturating_sub(2);
+    format!(
+        "{} items, the forest defines {}; first difference at position {k}: yielded {:?} …, expected {:?} …",
+        got.len(),
+        want.len(),
+        &got[lo.min(got.len())..(k + 3).min(got.len())],
+        &want[lo.min(want.len())..(k + 3).min(want.len())]
+    )
+}
+
 impl<P: Payload> World<P> {
     fn ids(&self, v: &[usize]) -> Vec<NodeId> {
         v.iter().map(|&s| self.m.n[s].id).collect()
     }
 
     fn model_edges(&self, x: usize, out: &mut Vec<NodeEdge>) {
+        // iterative: subtrees may be tens of thousands deep
+        let mut stack: Vec<(usize, usize)> = vec![(x, 0)];
         out.push(NodeEdge::Start(self.m.n[x].id));
-        for &c in &self.m.n[x].children {
-            self.model_edges(c, out);
+        while let Some((n, i)) = stack.pop() {
+            if i < self.m.n[n].children.len() {
+                stack.push((n, i + 1));
+                let c = self.m.n[n].children[i];
+                out.push(NodeEdge::Start(self.m.n[c].id));
+                stack.push((c, 0));
+            } else {
+                out.push(NodeEdge::End(self.m.n[n].id));
+            }
         }
-        out.push(NodeEdge::End(self.m.n[x].id));
     }
 
     /// C09 (+ finiteness clause of C02) for the given start nodes.
@@ -93,7 +117,7 @@ impl<P: Payload> World<P> {
                             d.failures.push(Failure::new(
                                 props,
                                 format!("{}/{}", $name, if over { "does-not-end" } else { "wrong-sequence" }),
-                                format!("{:?}.{}() yields {:?}{}, the forest defines {:?}", id, $name, g, if over { " … (cut off)" } else { "" }, want),
+                                format!("{:?}.{}() yields {}{}", id, $name, show(&g, &want), if over { " (cut off: it does not end)" } else { "" }),
                             ));
                             return;
                         }
@@ -122,7 +146,7 @@ impl<P: Payload> World<P> {
                         d.failures.push(Failure::new(
                             props,
                             format!("{name}/{}", if over { "does-not-end" } else { "wrong-sequence" }),
-                            format!("{:?}.{name}() yields {:?}, the forest defines {:?}", id, g, want),
+                            format!("{:?}.{name}() yields {}", id, show(&g, want)),
                         ));
                         return;
                     }
@@ -226,15 +250,27 @@ impl<P: Payload> World<P> {
                     v
                 };
                 let npulls = (l + 2).min(64);
-                for pat in patterns {
+                // patterns as (bits, number of pulls); bit = 1 means next_back
+                let mut plans: Vec<(Vec<bool>, bool)> = patterns.iter().map(|pat| ((0..npulls).map(|b| (pat >> b) & 1 == 1).collect(), false)).collect();
+                if bits > exh_bits && l <= 4096 {
+                    // long sequences: every "k pulls from one end, then the rest (and two more) from the other" split near
+                    // the interesting places — these exhaust the iterator, which 64 sampled pulls cannot
+                    for k in [0usize, 1, 2, l / 2, l.saturating_sub(1), l, l + 1] {
+                        for front_first in [true, false] {
+                            let v: Vec<bool> = (0..l + 2).map(|i| if i < k { !front_first } else { front_first }).collect();
+                            plans.push((v, true));
+                        }
+                    }
+                }
+                for (plan, _split) in plans {
                     let mut want: VecDeque<NodeId> = f.iter().copied().collect();
                     let res = catch_unwind(AssertUnwindSafe(|| {
                         macro_rules! run {
                             ($it:expr) => {{
                                 let mut it = $it;
-                                let mut got = Vec::with_capacity(npulls);
-                                for b in 0..npulls {
-                                    if (pat >> b) & 1 == 0 {
+                                let mut got = Vec::with_capacity(plan.len());
+                                for &back in &plan {
+                                    if !back {
                                         got.push((false, it.next()));
                                     } else {
                                         got.push((true, it.next_back()));
@@ -250,10 +286,29 @@ impl<P: Payload> World<P> {
                         }
                     }));
                     d.evals += 1;
+                    let pulls = |got: &Vec<(bool, Option<NodeId>)>| -> String {
+                        let s: String = got.iter().map(|(b, _)| if *b { 'B' } else { 'F' }).collect();
+                        if s.len() > 80 {
+                            // run-length form for long patterns
+                            let mut out = String::new();
+                            let mut cs = s.chars().peekable();
+                            while let Some(c) = cs.next() {
+                                let mut n = 1;
+                                while cs.peek() == Some(&c) {
+                                    cs.next();
+                                    n += 1;
+                                }
+                                out.push_str(&format!("{c}x{n} "));
+                            }
+                            out
+                        } else {
+                            s
+                        }
+                    };
                     let got = match res {
                         Ok(g) => g,
                         Err(e) => {
-                            d.failures.push(Failure::new(&["C10"], format!("{which}/panic"), format!("{:?}.{which}() panicked under pull pattern {:#b}: {}", id, pat, panic_msg(e))));
+                            d.failures.push(Failure::new(&["C10"], format!("{which}/panic"), format!("{:?}.{which}() panicked under a pull pattern: {}", id, panic_msg(e))));
                             return;
                         }
                     };
@@ -266,17 +321,18 @@ impl<P: Payload> World<P> {
                             mixed.0 = true
                         }
                         if *item != w {
-                            let pulls: String = got.iter().map(|(b, _)| if *b { 'B' } else { 'F' }).collect();
+                            let fs = if f.len() > 12 { format!("{:?} … ({} elements)", &f[..6], f.len()) } else { format!("{:?}", f) };
                             d.failures.push(Failure::new(
                                 &["C10"],
                                 format!("{which}/{}/{}", if parentless { "parentless" } else { "with-parent" }, if *back { "next_back" } else { "next" }),
-                                format!("{:?}.{which}() forward sequence is {:?}; pulls {pulls} (F=next, B=next_back): pull #{k} returned {:?}, expected {:?}", id, f, item, w),
+                                format!("{:?}.{which}() forward sequence is {fs}; pulls {} (F=next, B=next_back): pull #{k} returned {:?}, expected {:?}", id, pulls(&got), item, w),
                             ));
                             return;
                         }
                     }
                     if (l >= 2 && mixed.0 && mixed.1) || parentless {
-                        d.nt.push(("C10", fnv(&format!("{which}|{l}|{}|{}", pat & ((1u64 << npulls.min(63)) - 1), parentless))));
+                        let key: String = plan.iter().take(70).map(|b| if *b { 'B' } else { 'F' }).collect();
+                        d.nt.push(("C10", fnv(&format!("{which}|{l}|{key}|{}|{parentless}", plan.len()))));
                     }
                 }
                 // rev() adaptor
@@ -512,8 +568,9 @@ impl<P: Payload> World<P> {
     }
 
     /// every live x: remove / remove_subtree / detach on clones; every removed r: append_value
-    pub fn probe_unary(&self, cfg: &StepCfg, d: &mut DeepOut) {
-        for s in 0..self.m.n.len() {
+    pub fn probe_unary(&self, seed: u64, cfg: &StepCfg, d: &mut DeepOut) {
+        let slots: Vec<usize> = if self.m.n.len() > 64 { self.probe_candidates(seed ^ 0x5151, 12) } else { (0..self.m.n.len()).collect() };
+        for s in slots {
             let sel = Sel::Slot(s as u16);
             let ops: Vec<Op> = if self.m.n[s].live {
                 vec![Op::Remove { x: sel }, Op::RemoveSubtree { x: sel }, Op::Detach { x: sel }, Op::AppendValue { parent: sel, v: 7 }]
